@@ -2,3 +2,4 @@ import SmppVerif.Model.Driver
 import SmppVerif.Props.C10
 import SmppVerif.Props.C11
 import SmppVerif.Props.C17
+import SmppVerif.Props.C20
